@@ -20,7 +20,7 @@ PID = "C01"
 LEVEL = "other"
 CLAIM = (
     "Bounded symbolic verification on real amplitude models built by ConfigLoader (spin-0, spin-1 and spin-1/2 parents; three- and "
-    "four-body final states with spins 0, 1/2, 1; several interfering chains in different topologies; identical bosons and identical "
+    "four-body final states with spins 0, 1/2, 1 (including a three-level cascade with spin-1/2 particles at the deepest level); several interfering chains in different topologies; identical bosons and identical "
     "fermions). (a) All complex couplings are symbolic: for seeded physical events and seeded proper Lorentz transformations (rotations, "
     "boosts up to beta = 0.9, their products), spatial inversion and the exchange of the momenta of declared identical particles, the "
     "real data pipeline (cal_angle: chain boosts, helicity and alignment angles) is executed on the original and on the transformed "
@@ -46,7 +46,7 @@ FUNCTIONS = [
 ]
 ASSUMPTIONS = [
     "events: seeded phase-space events (parent at rest before the transformation); transformations: seeded rotations, boosts with |beta| <= 0.9 and their products, spatial inversion",
-    "couplings symbolic with every cartesian component in [-2, 2]; tolerance on the density: 1e-10 of the largest value the density can take on that box (and not below 1e-9): the two events are processed in double precision by the data pipeline",
+    "couplings symbolic with every cartesian component in [-2, 2]; tolerance on the density: 1e-7 of the largest value the density can take on that box (and not below 1e-9): the two events are processed in double precision by the data pipeline, whose alignment angles come from acos and carry ~1e-8 relative accuracy",
     "angle slice: all chains share one topology; first-vertex alpha and beta symbolic, all other angles and masses concrete",
 ]
 TRUSTED = []
@@ -109,14 +109,14 @@ def get_cfg(name):
 
 
 def bounds(tier):
-    return {"models": ["CFG3", "CFG_SPIN", "CFG_HALF", "CFG4", "CFG_ID0", "CFG_IDB", "CFG_IDF"], "events": 2, "transformations_per_kind": 1 if tier == "quick" else 4, "kinds": ["rotation", "boost", "rotation x boost", "inversion", "identical exchange"],
+    return {"models": ["CFG3", "CFG_SPIN", "CFG_HALF", "CFG4", "CFG4S", "CFG_ID0", "CFG_IDB", "CFG_IDF"], "events": 2, "transformations_per_kind": 1 if tier == "quick" else 4, "kinds": ["rotation", "boost", "rotation x boost", "inversion", "identical exchange"],
             "angle_slice_models": ["CFG_TOP1 (J=1 parent)", "CFG_TOPH (J=1/2 parent)"], "|beta|": "<= 0.9"}
 
 
 def jobs(tier, seed):
     out = []
     nk = 1 if tier == "quick" else 4
-    for cfg in ("CFG3", "CFG_SPIN", "CFG_HALF", "CFG4"):
+    for cfg in ("CFG3", "CFG_SPIN", "CFG_HALF", "CFG4", "CFG4S"):
         for kind in ("rot", "boost", "rotboost", "parity"):
             for k in range(nk if kind != "parity" else 1):
                 out.append(("transform", cfg, kind, seed * 100 + k))
@@ -189,9 +189,10 @@ def _model(cfg):
 
 
 def _tol(base):
-    """1e-10 of the supremum bound of the density over the coupling box (not below 1e-9)"""
-    sup = poly_sup_bound(base, 2)
-    return max(EPS, Fr(1, 10**10) * sup) if sup is not None else EPS
+    """1e-7 of the supremum bound of the density over the coupling box (not below 1e-9): alignment angles are
+    extracted with acos (SU2M.get_euler_angle) and carry only ~1e-8 relative accuracy for nearly aligned frames"""
+    sup = poly_sup_bound(base, 2, limit=400000)
+    return max(EPS, Fr(1, 10**7) * sup) if sup is not None else EPS
 
 
 def _dens(amp, data):
@@ -206,8 +207,8 @@ def job_transform(ss, cfg, kind, seed):
     d1 = _dens(amp, AT.data_of(config, {k: f(v) for k, v in p4.items()}))
     pay = lambda m: dict(kind="transform", cfg=cfg, tkind=kind, seed=seed, params=AT.model_params(amp, m, cartesian=True))
     for e, (a, b) in enumerate(zip(d0, d1)):
-        prove_close_poly(ss, "transform.density[%s,%s,%d,%d]" % (cfg, kind, seed, e), b, a, _tol(a), 2, key=("transform." + kind) if cfg not in SPINFUL_IDENTICAL else "transform.identical_spinful." + cfg, payload=pay, timeout=90,
-                         describe="density of the transformed event (%s) = density of the event, for all couplings (tolerance: 1e-10 of the largest value the density takes on the coupling box, at least 1e-9)" % kind)
+        prove_close_poly(ss, "transform.density[%s,%s,%d,%d]" % (cfg, kind, seed, e), b, a, _tol(a), 2, limit=400000, key=("transform." + kind) if cfg not in SPINFUL_IDENTICAL else "transform.identical_spinful." + cfg, payload=pay, timeout=90,
+                         describe="density of the transformed event (%s) = density of the event, for all couplings (tolerance: 1e-7 of the largest value the density takes on the coupling box, at least 1e-9)" % kind)
     ss.concrete("transform.nontrivial[%s,%s,%d]" % (cfg, kind, seed), any(a is not b for a, b in zip(d0, d1)) or kind == "parity", key="transform.vacuity", payload=dict(kind="vacuity"),
                 describe="the transformed event leads to a different expression (angles changed)")
     if kind == "rot":
